@@ -219,4 +219,180 @@ theorem dispatch_arith_r8_imm8 (c : Model.X86.Ctx) (row : Row) (k0 : RegKind) (i
     simp [dispatch, henc, sig3, Op.kind, Op.id, Op.rmSize, Op.immVal, rtypeOf, fix1, fixK, hne']
     simp [fixupGpb, Op.isGp8Hi]
 
+/-! ### class X86Arith: `op r16/r32/r64, imm` - 83 /d ib (sign-extended imm8) and 81 /d iw|id (imm32 sign-extended under REX.W) -/
+
+/-- the opcode word before the form choice: 0x80 with the operand-size prefix / REX.W of the register size -/
+def arithImmBase (e : Entry) : BitVec 32 :=
+  let s := kindSize (e.kinds.getD 0 .none)
+  if s == 2 then 0x80#32 ||| kPP_66 else if s == 8 then 0x80#32 ||| kW else 0x80#32
+
+/-- the immediate as the class passes it on: sign-extended from 32 bits for 32-bit registers -/
+def arithImm1 (e : Entry) (v : BitVec 64) : BitVec 64 := if kindSize (e.kinds.getD 0 .none) == 4 then signExtendInt32 v else v
+
+/-- the monitor's choice between "sign-extended value modulo the operand size" and "plain bytes" for the immediate of a form -/
+def immSignCase (r : Rule) (f3 : FormOp) : Bool := immSignOf f3 == 1 && r.oszEff != 0 && 8 * immBytesOf (immBitsOf f3) < r.oszEff
+
+def entryOkArithImm (e : Entry) : Bool :=
+  match e.rule.ops, e.kinds with
+  | [f0, f3], [k0] =>
+    let s := kindSize k0
+    -- `and r64, immu32` (zero-extending 32-bit form chosen by an encoding option) is a separate path of the class: not covered
+    (k0 == .gpq && e.rule.w == 0 && immBitsOf f3 == 32) ||
+    (e.enc == 0x19 && ((s == 2 || s == 4 || s == 8) && (plainKind k0 && (f0.role == .rm && (f3.role == .imm && (noFix f0 && (formOpMatches e.rule.oszEff f0 (.reg k0 0) &&
+    (!e.rule.immRev &&
+    ((immBitsOf f3 == 8 && (immSignCase e.rule f3 && (e.rule.oszEff == 8 * s && (legRuleDOk e.rule 1 (((arithImmBase e + 3#32) >>> 21) &&& 3#32).toNat (digitOf e).toNat &&
+        legAgreeOk e.rule (arithImmBase e + 3#32))))) ||
+     (immBitsOf f3 == 8 * min s 4 && (immBitsOf f3 != 8 && ((!immSignCase e.rule f3 || (s == 8 && e.rule.oszEff == 64)) &&
+        (legRuleDOk e.rule (min s 4) (((arithImmBase e + 1#32) >>> 21) &&& 3#32).toNat (digitOf e).toNat && legAgreeOk e.rule (arithImmBase e + 1#32))))))))))))))
+  | _, _ => false
+
+theorem arithimm_entries_ok : larithimmChunks.all (fun c => c.all entryOkArithImm) = true := by decide +kernel
+
+theorem sext32_low (v : BitVec 64) : (signExtendInt32 v).toNat % 2 ^ 32 = v.toNat % 2 ^ 32 := by
+  have h : (signExtendInt32 v).truncate 32 = (v.truncate 32 : BitVec 32) := by simp only [signExtendInt32]; bv_decide
+  have := congrArg BitVec.toNat h
+  simpa [BitVec.truncate, BitVec.toNat_setWidth] using this
+
+theorem leNat_leBytes4 (a : Nat) : leNat (leBytes a 4) = a % 2 ^ 32 := by
+  simp only [leBytes, leNat, BitVec.toNat_ofNat]
+  omega
+
+theorem take_emitImmediate (x : BitVec 64) (n : Nat) : (emitImmediate x n).take n = emitImmediate x n := by
+  have := (imm_le_exact x n).1
+  exact List.take_of_length_le (by omega)
+
+/-- **front_cls_correct, class X86Arith, `op r16/r32/r64, imm8` (83 /d ib, sign-extended)**: ALL registers 0..15, every immediate that the class
+encodes in this form (`isInt8` of the value, after sign-extension from 32 bits for a 32-bit register). -/
+theorem front_cls_correct_arith_imm8s (e : Entry) (ch : List Entry) (hch : ch ∈ larithimmChunks) (he : e ∈ ch)
+    (ctx : Spec.X86.Ctx) (r0 : BitVec 32) (v : BitVec 64) (hm64 : ctx.mode64 = true) (h0 : r0 < 16#32)
+    (h8 : ∀ f3, e.rule.ops[1]? = some f3 → immBitsOf f3 = 8)
+    (himm : ∀ f3, e.rule.ops[1]? = some f3 → formOpMatches e.rule.oszEff f3 (.imm v) = true)
+    (hfit : isInt8of64 (arithImm1 e v) = true) :
+    ∃ bytes k0, e.kinds = [k0] ∧ emitX86R (arithImmBase e + 3#32) 0#32 (digitOf e) r0 (arithImm1 e v) 1 = .ok bytes ∧
+      formOk ctx e.rule [.reg k0 r0.toNat, .imm v] {} bytes = true := by
+  have hok := mem_chunks_ok arithimm_entries_ok e ch hch he
+  unfold entryOkArithImm at hok
+  split at hok
+  · rename_i f0 f3 k0 hops hkinds
+    have hb8 : immBitsOf f3 = 8 := h8 f3 (by rw [hops]; rfl)
+    have m3 : formOpMatches e.rule.oszEff f3 (.imm v) = true := himm f3 (by rw [hops]; rfl)
+    simp only [hb8, Bool.and_eq_true, Bool.or_eq_true, beq_iff_eq, bne_iff_ne, ne_eq, Bool.not_eq_true', decide_eq_true_eq] at hok
+    rcases hok with ⟨⟨-, -⟩, h32⟩ | ⟨-, hs, pk, ra, r3, n0, m0, hrev, hcase⟩
+    · omega
+    · rcases hcase with ⟨-, hsc, hosz, hR, hA⟩ | ⟨hbad, hne, -⟩
+      · obtain ⟨A, hmask⟩ := legAgreeOk_spec _ _ hA
+        have R := legRuleDOk_spec _ _ _ _ hR
+        have hal : alignOps e.rule.oszEff e.rule.ops [.reg k0 r0.toNat, .imm v] = some [(f0, some (.reg k0 r0.toNat)), (f3, some (.imm v))] := by
+          rw [hops]
+          exact alignOps2 _ _ _ _ _ (by rw [formOpMatches_reg_nofix _ _ _ _ n0]; exact m0) m3
+        have hd : digitOf e < 8#32 := by simp only [digitOf]; bv_decide
+        obtain ⟨bytes, hb, hf⟩ := rmImm_formOk ctx e.rule (arithImmBase e + 3#32) (digitOf e) r0 k0 f0 f3 v (arithImm1 e v) 1 hm64 (by simpa using R.hmodes) hmask
+          (plainKind_spec _ pk) hd h0 R A ra (by
+            intro p hp
+            refine immConds_ok ctx e.rule p f3 v r3 (by rw [hb8]; decide) hrev ?_
+            have hsc' : (immSignOf f3 == 1 && e.rule.oszEff != 0 && decide (8 * immBytesOf (immBitsOf f3) < e.rule.oszEff)) = true := by
+              simpa [immSignCase] using hsc
+            rw [hsc', hb8]
+            simp only [↓reduceIte, decide_eq_true_eq, immBytesOf, show (8:Nat) ≤ 8 from Nat.le_refl 8, hp, emitImmediate, List.take, leNat, Nat.mul_zero, Nat.add_zero, Nat.mul_one]
+            obtain ⟨a64, a32, a16⟩ := sext8_mod (arithImm1 e v) hfit
+            simp only [arithImm1, hkinds, List.getD_cons_zero] at a64 a32 a16 hfit ⊢
+            rw [hosz]
+            rcases hs with (hs | hs) | hs <;> rw [hs] at a64 a32 a16 ⊢
+            · simpa using a16
+            · simp only [beq_self_eq_true, ↓reduceIte] at a32 ⊢
+              rw [sext32_low] at a32
+              simpa using a32
+            · simpa using a64) hal
+        exact ⟨bytes, k0, hkinds, hb, hf⟩
+      · exact absurd trivial hne
+  · simp at hok
+
+/-- **front_cls_correct, class X86Arith, `op r16/r32/r64, imm16/imm32` (81 /d iw|id; imm32 sign-extended under REX.W)**: ALL registers 0..15;
+for a 64-bit register the immediate must be representable as a sign-extended imm32 (otherwise the class refuses). The form is used when the
+immediate does not fit the sign-extended imm8 form; the accumulator has its own short form (a separate path of the class). -/
+theorem front_cls_correct_arith_imm (e : Entry) (ch : List Entry) (hch : ch ∈ larithimmChunks) (he : e ∈ ch)
+    (ctx : Spec.X86.Ctx) (r0 : BitVec 32) (v : BitVec 64) (hm64 : ctx.mode64 = true) (h0 : r0 < 16#32)
+    (hn8 : ∀ f3, e.rule.ops[1]? = some f3 → immBitsOf f3 ≠ 8)
+    (hnz : ∀ f3, e.rule.ops[1]? = some f3 → ¬ (e.kinds = [.gpq] ∧ e.rule.w = 0 ∧ immBitsOf f3 = 32))
+    (himm : ∀ f3, e.rule.ops[1]? = some f3 → formOpMatches e.rule.oszEff f3 (.imm v) = true)
+    (hfit : kindSize (e.kinds.getD 0 .none) = 8 → isInt32of64 v = true) :
+    ∃ bytes k0, e.kinds = [k0] ∧
+      emitX86R (arithImmBase e + 1#32) 0#32 (digitOf e) r0 (arithImm1 e v) (min (kindSize k0) 4) = .ok bytes ∧
+      formOk ctx e.rule [.reg k0 r0.toNat, .imm v] {} bytes = true := by
+  have hok := mem_chunks_ok arithimm_entries_ok e ch hch he
+  unfold entryOkArithImm at hok
+  split at hok
+  · rename_i f0 f3 k0 hops hkinds
+    have hb8 : immBitsOf f3 ≠ 8 := hn8 f3 (by rw [hops]; rfl)
+    have hz := hnz f3 (by rw [hops]; rfl)
+    have m3 : formOpMatches e.rule.oszEff f3 (.imm v) = true := himm f3 (by rw [hops]; rfl)
+    simp only [Bool.and_eq_true, Bool.or_eq_true, beq_iff_eq, bne_iff_ne, ne_eq, Bool.not_eq_true', decide_eq_true_eq] at hok
+    rcases hok with ⟨⟨hq, hw0⟩, h32⟩ | ⟨-, hs, pk, ra, r3, n0, m0, hrev, hcase⟩
+    · exact absurd ⟨by rw [hkinds, hq], hw0, h32⟩ hz
+    · rcases hcase with ⟨h8', -⟩ | ⟨hnb, -, hscase, hR, hA⟩
+      · exact absurd h8' hb8
+      · obtain ⟨A, hmask⟩ := legAgreeOk_spec _ _ hA
+        have R := legRuleDOk_spec _ _ _ _ hR
+        have hal : alignOps e.rule.oszEff e.rule.ops [.reg k0 r0.toNat, .imm v] = some [(f0, some (.reg k0 r0.toNat)), (f3, some (.imm v))] := by
+          rw [hops]
+          exact alignOps2 _ _ _ _ _ (by rw [formOpMatches_reg_nofix _ _ _ _ n0]; exact m0) m3
+        have hd : digitOf e < 8#32 := by simp only [digitOf]; bv_decide
+        have hfit' : kindSize k0 = 8 → isInt32of64 v = true := by simpa [hkinds] using hfit
+        have hn : immBytesOf (immBitsOf f3) = min (kindSize k0) 4 := by
+          rw [hnb]; rcases hs with (hs | hs) | hs <;> rw [hs] <;> decide
+        have hn4 : immBitsOf f3 ≠ 4 := by rw [hnb]; rcases hs with (hs | hs) | hs <;> rw [hs] <;> decide
+        obtain ⟨bytes, hb, hf⟩ := rmImm_formOk ctx e.rule (arithImmBase e + 1#32) (digitOf e) r0 k0 f0 f3 v (arithImm1 e v) (min (kindSize k0) 4) hm64
+          (by simpa using R.hmodes) hmask (plainKind_spec _ pk) hd h0 R A ra (by
+            intro p hp
+            refine immConds_ok ctx e.rule p f3 v r3 hn4 hrev ?_
+            rw [hn, hp, take_emitImmediate]
+            have hsc : (immSignOf f3 == 1 && e.rule.oszEff != 0 && decide (8 * min (kindSize k0) 4 < e.rule.oszEff)) = immSignCase e.rule f3 := by
+              simp [immSignCase, hn]
+            rw [hsc]
+            rcases hscase with hsf | ⟨hs8, hosz⟩
+            · -- plain bytes
+              rw [hsf]
+              simp only [Bool.false_eq_true, ↓reduceIte, beq_iff_eq]
+              simp only [arithImm1, hkinds, List.getD_cons_zero]
+              rcases hs with (hs | hs) | hs <;> rw [hs]
+              · simp [emitImmediate_leBytes]
+              · simp only [beq_self_eq_true, ↓reduceIte, show min 4 4 = 4 from rfl]
+                rw [emitImmediate_sext32, emitImmediate_leBytes]
+              · simp [emitImmediate_leBytes]
+            · -- sign-extended imm32 under REX.W (or plain bytes when the monitor's case is the other one)
+              cases hsc2 : immSignCase e.rule f3
+              · simp only [Bool.false_eq_true, ↓reduceIte, beq_iff_eq]
+                simp only [arithImm1, hkinds, List.getD_cons_zero, hs8]
+                simp [emitImmediate_leBytes]
+              · simp only [↓reduceIte, decide_eq_true_eq]
+                simp only [arithImm1, hkinds, List.getD_cons_zero, hs8, hosz]
+                simp only [show ((8:Nat) == 4) = false from rfl, Bool.false_eq_true, ↓reduceIte, show min 8 4 = 4 from rfl]
+                rw [emitImmediate_leBytes, leNat_leBytes4]
+                have := sext32_mod v (hfit' hs8)
+                simpa using this) hal
+        exact ⟨bytes, k0, hkinds, hb, hf⟩
+  · simp at hok
+
+/-- the class switch reaches exactly these emissions for `op reg, imm` with a 16 / 32 / 64-bit register -/
+theorem dispatch_arith_imm (c : Model.X86.Ctx) (row : Row) (k : RegKind) (i : Nat) (v : BitVec 64) (henc : row.encoding = 0x19)
+    (hk : k = .gpw ∨ k = .gpd ∨ k = .gpq)
+    (hfit : k = .gpq → isInt32of64 v = true) :
+    let imm1 := if kindSize k == 4 then signExtendInt32 v else v
+    let opc : BitVec 32 := if kindSize k == 2 then 0x80#32 ||| kPP_66 else if kindSize k == 8 then 0x80#32 ||| kW else 0x80#32
+    (isInt8of64 imm1 = true → dispatch c row 0#32 (.reg (rtypeOf k) i) (.imm v) .none .none =
+        emitX86R (opc + 3#32) 0#32 ((row.mainOp >>> 18) &&& 7#32) (r32 i) imm1 1) ∧
+    (isInt8of64 imm1 = false → r32 i ≠ 0#32 → dispatch c row 0#32 (.reg (rtypeOf k) i) (.imm v) .none .none =
+        emitX86R (opc + 1#32) 0#32 ((row.mainOp >>> 18) &&& 7#32) (r32 i) imm1 (min (kindSize k) 4)) := by
+  intro imm1 opc
+  have hks : kindSize .gpw = 2 ∧ kindSize .gpd = 4 ∧ kindSize .gpq = 8 := by decide
+  rcases hk with h | h | h <;> subst h <;> refine ⟨fun h8 => ?_, fun h8 hr => ?_⟩
+  all_goals first
+    | (have hr' : (r32 i == 0#32) = false := by simpa using hr
+       simp only [imm1, opc, hks.1, hks.2.1, hks.2.2] at h8 ⊢
+       simp at h8
+       simp [dispatch, henc, sig3, Op.kind, Op.id, Op.rmSize, Op.immVal, rtypeOf, h8, hr', oLongForm, hfit, kPP_66, kW])
+    | (simp only [imm1, opc, hks.1, hks.2.1, hks.2.2] at h8 ⊢
+       simp at h8
+       simp [dispatch, henc, sig3, Op.kind, Op.id, Op.rmSize, Op.immVal, rtypeOf, h8, oLongForm, hfit, kPP_66, kW])
+
 end AsmjitVerif.Props.C01
